@@ -22,7 +22,7 @@ SHARD_TIMEOUT = {"quick": 600, "thorough": 3000}
 def plan(tier, seed):
     if tier == "quick":
         return [{"tier": tier, "seed": seed, "shard": i, "n": 2500, "subprocess": True} for i in range(12)]
-    return [{"tier": tier, "seed": seed, "shard": i, "n": 160000, "subprocess": True} for i in range(32)]
+    return [{"tier": tier, "seed": seed, "shard": i, "n": 50000, "subprocess": True} for i in range(32)]
 
 
 def encode(v):
